@@ -1,6 +1,6 @@
 """C01 — combinators obey PEG semantics with pyparsing's whitespace rule."""
 from tools import vlib
-from tools.harness import gen, corr, pcommon, views, shrink as shr
+from tools.harness import gen, corr, pcommon, views, peg_ref, shrink as shr
 
 PROP = "C01"
 GEN = []
@@ -42,11 +42,30 @@ def run(ctx, groups, oracle_only=False):
     if not oracle_only:
         pcommon.outcome_hist(ctx, parse_recs)
         pcommon.model_agreement(ctx, parse_recs, "parse-outcomes")
-    n_in, n_ref = 0, 0
+    n_in, n_ref, n_surf = 0, 0, 0
     for r in parse_recs:
         p = pegs.get((repr(r["g"]), repr(r["env"]), r["inp"]))
         nontriv = gen.size(r["g"]) >= 3 and len(r["inp"]) > 0
         ctx.case(pcommon.key_of(r), nontriv, r.get("agree", True))
+        # (iv) the surface-level transcription of the whitespace rule: independent of the real objects' flags
+        sw = peg_ref.reading(r["g"], r["env"], r["inp"])
+        if sw is not None and r["real"][0] != "timeout":
+            n_surf += 1
+            got = peg_of_real(r["real"])
+            if sw != got and not (sw[0] == "div" or got[0] == "div"):
+                def sfails(g, env, inp):
+                    a = pcommon.single(g, env, inp, ("none",), ("parse", False))
+                    w = peg_ref.reading(g, env, inp)
+                    return a is not None and w is not None and w[0] != "div" and peg_of_real(a["real"]) not in (w, ("div",))
+                try:
+                    g, env, inp = shr.shrink(r["g"], r["env"], r["inp"], sfails, budget=80)
+                    got = peg_of_real(pcommon.single(g, env, inp, ("none",), ("parse", False))["real"])
+                    sw = peg_ref.reading(g, env, inp)
+                except Exception:
+                    g, env, inp = r["g"], r["env"], r["inp"]
+                ctx.violation("surface-peg:%r|%r|%r" % (g, env, inp),
+                              "parse_string of %r (env %r) on %r gives %r but the PEG reading with the structural whitespace rule gives %r" % (
+                                  g, env, inp, got, sw), {"kind": "surface", "grammar": g, "env": env, "input": inp})
         if p is None or p["model"][0] != "peg":
             continue
         _, inc, inr, res = p["model"]
@@ -73,6 +92,7 @@ def run(ctx, groups, oracle_only=False):
                           {"kind": "peg", "grammar": g, "env": env, "input": inp})
     ctx.stat("cases_in_proved_class", n_in)
     ctx.stat("cases_in_reference_class", n_ref)
+    ctx.stat("cases_in_surface_reading", n_surf)
     return recs
 
 
@@ -116,6 +136,13 @@ def replay(ctx, obj):
         want, got = peg_of_ref(rr[1]["model"][3]), peg_of_real(rr[0]["real"])
         print("implementation:", got)
         print("PEG reading   :", want)
+        return want == got
+    if r.get("kind") == "surface":
+        g, env = _tuplify(r["grammar"]), {int(k): _tuplify(v) for k, v in (r.get("env") or {}).items()}
+        got = peg_of_real(pcommon.single(g, env, r["input"], ("none",), ("parse", False))["real"])
+        want = peg_ref.reading(g, env, r["input"])
+        print("implementation:", got)
+        print("surface PEG   :", want)
         return want == got
     print("replay names a broken proof/correspondence obligation: %r" % (r,))
     return False
